@@ -126,11 +126,15 @@ func (s *scenario) String() string {
 
 const (
 	ceiling = 150 * time.Second // harness deadline of any single infrastructure wait: never a verdict
-	// settle window: how long after the injection (and after the racing
-	// transition returned) the environment is given to leave its healthy state.
-	// The core's own delay is a 500 ms timer plus a transition without task
-	// commands (GO_ERROR) plus one STOP round trip (simulated executors answer at once).
+	// settle window: how long AFTER THE CORE HAS DEMONSTRABLY HANDLED THE INJECTED EVENT (every victim's role reports a
+	// status other than ACTIVE) — and after the racing transition returned — the environment is given to leave its
+	// healthy state. The core's own delay is a 500 ms timer plus a transition without task commands (GO_ERROR) plus
+	// one STOP round trip (simulated executors answer at once). The window grows with the slowest GetEnvironment round
+	// trip seen while waiting (a starved core answers slowly: 10 x that latency is added).
 	settleWindow = 4 * time.Second
+	// how long the core is given to show ANY reaction to an event that was delivered on its event stream. Not a
+	// verdict about C03's timing: a core that has not even marked the task INACTIVE after this is observed as it is.
+	handledCeiling = 30 * time.Second
 )
 
 func taskClassYAML(name string) string {
@@ -156,7 +160,13 @@ func workflowYAML(ts []taskSpec) string {
 }
 
 type observation struct {
-	pre      string
+	pre string
+	// tasks whose role did NOT yet report the state their last command reply announced when the world was looked at
+	// immediately before the injection: at instant idle the live state (the `go updateTaskState` of the reply that ended
+	// the last transition had not run yet although the API call had returned), at race / racelate / raceself the
+	// destination of the transition in flight (tasks that are not held; their reply was on the stream already) — direct
+	// evidence of the schedule the model's stale-update variants assume
+	pending  []int
 	victims  []int
 	env      string
 	root     string
@@ -188,8 +198,11 @@ func (o *observation) sx() string {
 	for _, r := range o.run {
 		run.Add(sx.L(sx.A(r[0]), sx.A(r[1])))
 	}
-	return sx.L(
-		sx.L(sx.A("pre"), sx.A(o.pre)),
+	l := sx.L(sx.L(sx.A("pre"), sx.A(o.pre)))
+	if len(o.pending) > 0 {
+		l.Add(sx.L(sx.A("pending"), iv(o.pending)))
+	}
+	for _, f := range []*sx.Node{
 		sx.L(sx.A("victims"), iv(o.victims)),
 		sx.L(sx.A("env"), sx.A(o.env)),
 		sx.L(sx.A("root"), sx.A(o.root), sx.A(o.rootSu)),
@@ -198,7 +211,10 @@ func (o *observation) sx() string {
 		sx.L(sx.A("stamps"), sx.B(o.soeor), sx.B(o.eoeor)),
 		sx.L(sx.A("stops"), iv(o.stops)),
 		sx.L(sx.A("trans"), sx.A(o.trans)),
-	).String()
+	} {
+		l.Add(f)
+	}
+	return l.String()
 }
 
 func gctx() (context.Context, context.CancelFunc) {
@@ -399,6 +415,32 @@ func runScenario(s *scenario, verbose bool) (*observation, error) {
 		return nil, err
 	}
 	o.pre = v0.state
+	// Is a state update of the transition that has just ended (the creation's CONFIGURE, START_ACTIVITY) still on its
+	// way? The API call returns when the replies have been COUNTED; each reply's `go updateTaskState` is an independent
+	// goroutine. Instant idle = "right after the last API call returned": the injection follows at once and what was
+	// seen is part of the observation. Every other instant starts from a world in which nothing is on its way: wait.
+	pendingOf := func(v *envView) []int {
+		var p []int
+		for i := range s.tasks {
+			if v.roles[fmt.Sprintf("r%d", i)][0] != s.live {
+				p = append(p, i)
+			}
+		}
+		return p
+	}
+	o.pending = pendingOf(v0)
+	if s.instant != "idle" && len(o.pending) > 0 {
+		if err = sim.Poll("state updates of the last transition applied", ceiling, func() (bool, error) {
+			v, e := getEnv(w, id)
+			if e != nil {
+				return false, e
+			}
+			return !v.gone && len(pendingOf(v)) == 0, nil
+		}); err != nil {
+			return nil, err
+		}
+		o.pending = nil
+	}
 
 	// a transition in flight, parked at a task's reply
 	type tres struct {
@@ -467,6 +509,25 @@ func runScenario(s *scenario, verbose bool) (*observation, error) {
 			return n >= len(s.tasks) && a >= len(s.tasks)-held
 		}); err != nil {
 			return nil, err
+		}
+		// The replies of the tasks that are not held have been SENT to the core; whether each reply's `go updateTaskState`
+		// has already run is the core's schedule. Look right before the injection: a task that is not held and whose role
+		// does not yet report the transition's destination has its update still on its way — recorded in the observation
+		// (same licence as at instant idle: only then may the model apply that update AFTER the failure).
+		if s.instant == "race" || s.instant == "racelate" || s.instant == "raceself" {
+			dst := "RUNNING"
+			if s.live == "RUNNING" {
+				dst = "CONFIGURED"
+			}
+			vp, e := getEnv(w, id)
+			if e != nil {
+				return nil, e
+			}
+			for i := range s.tasks {
+				if i != holder && vp.roles[fmt.Sprintf("r%d", i)][0] != dst {
+					o.pending = append(o.pending, i)
+				}
+			}
 		}
 	}
 
@@ -542,11 +603,37 @@ func runScenario(s *scenario, verbose bool) (*observation, error) {
 		}
 	}
 
-	// settle: until ERROR is reported or the window is over
+	// an event that never got onto a stream was not injected at all
+	for _, r := range w.Trace()[mark:] {
+		if r.Dir == "event" && !r.Delivered && !isReconKind(s.kind) {
+			return nil, &sim.InfraError{What: "injected event was not delivered (no event stream): " + r.String()}
+		}
+	}
+	// settle. Phase 1: until the core has demonstrably handled the event — every victim's role reports a status other
+	// than ACTIVE (all kinds but TASK_INTERNAL_ERROR, which never touches the status and may legitimately change
+	// nothing at all) — or ERROR is reported. Phase 2: from then (and from the return of the racing transition) the
+	// settle window. No verdict is taken from a moment at which the core may simply not have got round to the event.
 	tSettle := time.Now()
+	handled := func(v *envView) bool {
+		if s.kind == "INTERNAL" {
+			return true
+		}
+		for _, i := range o.victims {
+			if v.roles[fmt.Sprintf("r%d", i)][1] == "ACTIVE" {
+				return false
+			}
+		}
+		return true
+	}
+	var tHandled time.Time
+	var slowest time.Duration
 	var last *envView
 	for {
+		t1 := time.Now()
 		last, err = getEnv(w, id)
+		if d := time.Since(t1); d > slowest {
+			slowest = d
+		}
 		if err != nil {
 			return nil, err
 		}
@@ -557,7 +644,14 @@ func runScenario(s *scenario, verbose bool) (*observation, error) {
 			o.tErrorMs = time.Since(t0).Milliseconds()
 			break
 		}
-		if time.Since(tSettle) > settleWindow {
+		if tHandled.IsZero() && handled(last) {
+			tHandled = time.Now()
+		}
+		if tHandled.IsZero() {
+			if time.Since(tSettle) > handledCeiling {
+				break // delivered, and no reaction whatsoever: observed as it is
+			}
+		} else if time.Since(tHandled) > settleWindow+10*slowest {
 			break
 		}
 		time.Sleep(10 * time.Millisecond)
@@ -655,6 +749,7 @@ func runScenario(s *scenario, verbose bool) (*observation, error) {
 			}
 		}
 	}
+	keepEvidence(w, s, o, evMark)
 	stat.Lock()
 	stat.n++
 	if o.tErrorMs >= 0 {
